@@ -194,10 +194,15 @@ def R3_search_siblings(run):
             "tick %s %s" % (">=" if k == "Ge" else "<", show_poly(v)) for k, v in sorted((got or {}).items())) or "nothing recognisable", "; " + why if why else ""), loc=fn.loc(),
             detail="start - s*spacing <= tick < start + 88*spacing - s*spacing, s = %d" % s_)
     g = facts.need_fn("state::tick_array::get_offset")
-    pv = prov_of(g, None, cut=False)
-    divs = [st["rv"]["bin"] for bb in g.blocks for st in bb["s"] if st["k"] == "=" and st["rv"].get("bin") in ("Div", "Rem")]
-    neg = any(c and c[0] == "Lt" and const_val(c[2]) == 0 for c in [at.cond() for at in A.atoms(g)])
-    run.check("R3", "floor-offset", sorted(divs) == ["Div", "Rem"] and neg, "get_offset is no longer floor((tick - start) / spacing) (d - 1 when the remainder is negative)", loc=g.loc(), detail="floor division")
+    from rules.ranges import floor_div_form
+    fd, why = floor_div_form(g)
+    ok = fd is not None
+    if ok:
+        x, y = fd
+        ok = x[0] == "bin" and x[1].startswith("Sub") and is_param(x[2], "tick_index") and is_param(x[3], "start_tick_index") and is_param(y, "tick_spacing")
+        why = "it divides %s by %s" % (show(x), show(y))
+    run.check("R3", "floor-offset", ok, "get_offset is no longer floor((tick_index - start_tick_index) / tick_spacing) (d - 1 when the remainder is negative): %s" % why, loc=g.loc(),
+              detail="floor division (hand-written or div_euclid by a widened unsigned spacing)")
 
 
 def R4_sequence(run):
